@@ -360,16 +360,19 @@ func (b *Buffer) grow(n int) {
 
 	// TODO(chef): 可以先尝试是否能挪出空闲位置
 
-	var newLen int
-	if cap(b.core) == 0 {
+	// 注意，需要一直扩容到足够容纳n字节为止，只翻倍一次时，写入比当前容量还大的数据会越界
+	dataLen := b.writePos - b.readPos
+	newLen := cap(b.core) * 2
+	if newLen == 0 {
 		newLen = 128
-	} else {
-		newLen = cap(b.core) * 2
+	}
+	for newLen-dataLen < n {
+		newLen *= 2
 	}
 	buf := make([]byte, newLen)
 	Log.Debugf("Buffer::grow. need=%d, old len=%d, cap=%d, new len=%d", n, b.Len(), cap(b.core), newLen)
 	copy(buf, b.core[b.readPos:b.writePos])
 	b.core = buf
 	b.readPos = 0
-	b.writePos = b.writePos - b.readPos
+	b.writePos = dataLen
 }
